@@ -66,8 +66,9 @@ Expected(s, a) ==
       [] OTHER -> <<>>
 
 OutPathsWhy(cfg, a, e) ==
-    IF a.op = "new_account"
-    THEN (IF TextTokens(e.out[1].path) # AcctTokens(cfg, Acct(a.net, a.wt, e.out[1].acct)) THEN "account-key-path-differs-from-documented-path" ELSE "ok")
+    IF a.op \in {"new_account", "export"}
+    THEN (IF TextTokens(e.out[1].path) # (IF cfg.watch THEN <<UpperM>> ELSE AcctTokens(cfg, Acct(a.net, a.wt, e.out[1].acct)))
+          THEN "account-key-path-differs-from-documented-path" ELSE "ok")
     ELSE IF \E k \in 1..Len(e.out) : TextTokens(e.out[k].path) # PosTokens(cfg, PosObs(e.out[k])) THEN "path-differs-from-documented-path"
     ELSE "ok"
 
@@ -116,7 +117,7 @@ Fold(cfg, s, evs, i) ==
     IF i > Len(evs) THEN [v |-> "ok", at |-> 0, s |-> s, exp |-> <<>>, devs |-> <<>>]
     ELSE LET e   == evs[i]
              a   == Req(e.a)
-             out == IF a.op = "new_account" /\ Len(e.out) = 1
+             out == IF a.op \in {"new_account", "export"} /\ Len(e.out) = 1
                     THEN <<[net |-> e.out[1].net, wt |-> e.out[1].wt, acct |-> e.out[1].acct, ch |-> 0, idx |-> 0]>>
                     ELSE [k \in 1..Len(e.out) |-> PosObs(e.out[k])]
              bad(c, x) == [v |-> c, at |-> i, s |-> s, exp |-> x, devs |-> <<>>]
